@@ -380,6 +380,7 @@ fn c12_std(cx: &mut Ctx, b: &[u8], kind: &str) {
     let (ci, ch) = ptr(b);
     let segs = segs_of(b);
     cx.rep.hit(&format!("c12 {kind}"));
+    cx.rep.traces += 1;
     // --- view reverse
     let (r, after) = impl_vrev(b);
     cx.cmp("view-reverse", &format!("vrev {}", hex(b)), &r);
@@ -557,13 +558,23 @@ fn c12_agree(cx: &mut Ctx, m: &StandardPath, enc: &[u8], line: &str) {
     let (_, mafter, mok) = impl_mrev(m);
     let (vr, vafter) = impl_vrev(enc);
     let vok = vr.starts_with("ok");
+    // more than 64 hop fields cannot be addressed by the 6-bit CurrHF: separate (known) failure class
+    let hc = m.hop_field_count();
+    let key = if hc > 64 { "agree:reverse:over-64-hops" } else { "agree:reverse" };
     if mok != vok {
-        cx.spec("agree:reverse", format!("model try_reverse ok={mok}, view try_reverse ok={vok}"), line.into());
+        cx.spec(key, format!("model try_reverse ok={mok}, view try_reverse ok={vok} ({hc} hop fields)"), line.into());
     } else if mok {
         match impl_menc(&mafter).1 {
             Some(e2) if e2 == vafter => {}
-            Some(_) => cx.spec("agree:reverse", "encode(reverse(m)) != reverse(encode(m))".into(), line.into()),
-            None => cx.spec("agree:reverse", "the reversed model is rejected by the encoder".into(), line.into()),
+            Some(_) => cx.spec(key, format!("encode(reverse(m)) != reverse(encode(m)) ({hc} hop fields)"), line.into()),
+            None => cx.spec(
+                key,
+                format!(
+                    "the encoder accepts the model ({hc} hop fields, current_hop_field {}) but rejects its reversal (current_hop_field {}), while the view over the encoding reverses",
+                    m.current_hop_field, mafter.current_hop_field
+                ),
+                line.into(),
+            ),
         }
     }
     // expiry
@@ -968,7 +979,8 @@ fn c11_authentic(cx: &mut Ctx, rng: &mut Rng, shape: &[usize], corrupt: bool) {
             flips.push((base + bit, h));
         }
     }
-    let sample: Vec<(usize, usize)> = if cx.rep.distribution.get("c11 corruption undetected-by-design").is_some() || flips.len() <= 400 {
+    let all_flips = flips.clone();
+    let sample: Vec<(usize, usize)> = if flips.len() <= 400 {
         flips
     } else {
         let mut f = flips;
@@ -1014,6 +1026,43 @@ fn c11_authentic(cx: &mut Ctx, rng: &mut Rng, shape: &[usize], corrupt: bool) {
                 "tamper-undetected",
                 format!("corrupted bit {bit} (owned by hop {owner}) passed verification at every hop"),
                 format!("{line} bit={bit}"),
+            ),
+        }
+    }
+    // double-bit corruptions (sampled pairs of authenticated bits): detected no later than at the AS owning
+    // the earlier of the two fields (verification at a hop never depends on later hop fields)
+    for _ in 0..120 {
+        let (b1, o1) = *rng.pick(&all_flips);
+        let (b2, o2) = *rng.pick(&all_flips);
+        if b1 == b2 {
+            continue;
+        }
+        let owner = o1.min(o2);
+        let mut c = start.clone();
+        c[b1 / 8] ^= 0x80 >> (b1 % 8);
+        c[b2 / 8] ^= 0x80 >> (b2 % 8);
+        let mut b = c.clone();
+        let mut detected_at: Option<usize> = None;
+        for (k, (op, key, _)) in steps.iter().enumerate() {
+            let (_, ok, v, _) = impl_step(&mut b, *op, *key);
+            if !ok || !v {
+                detected_at = Some(steps[k].2);
+                break;
+            }
+        }
+        cx.rep.case(&format!("corrupt2 {b1} {b2} {}", hex(&c[..c.len().min(40)])), true);
+        cx.rep.hit("c11 double-bit corruption of authenticated bits");
+        match detected_at {
+            Some(at) if at <= owner || same_as(shape, at, owner) => cx.rep.hit("c11 double corruption detected at or before the owning AS"),
+            Some(at) => cx.spec(
+                "tamper-late",
+                format!("corrupted bits {b1},{b2} (earliest owner hop {owner}) were only detected at hop {at}"),
+                format!("{line} bits={b1},{b2}"),
+            ),
+            None => cx.spec(
+                "tamper-undetected",
+                format!("corrupted bits {b1},{b2} passed verification at every hop"),
+                format!("{line} bits={b1},{b2}"),
             ),
         }
     }
